@@ -307,6 +307,125 @@ def one_case(ctx, drv, found, d, op, variant, compare=True):
     return out, log
 
 
+# ---- histories: several operations on ONE Ipmi object over BOTH stores --------------------------
+#
+# A history is a fault-free device description `base` plus steps {'op', 'cancels', 'transients'}
+# whose fault indices count from the step's own first request.  All steps run on one Ipmi object
+# against one device twin.  Every step is judged by `judge` (record exact / list complete / renewal
+# with the same store's Reserve command) against the device as it stands when the step starts, and
+# must behave exactly like the same operation on a fresh Ipmi object against a fresh device in that
+# state - which is what the Lean model, having no state between calls, computes (the fresh run is
+# compared with the model by `one_case`).  Steps pass no caller reservation, so each starts with its
+# own Reserve and the reservation left by an earlier step cannot matter.
+
+def run_history(base, steps, cap=20000):
+    device = twin(dict(base, cancels=[], transients=[]))
+    ipmi, iface = dev11.make_ipmi(device.handle, cap=cap)
+    res = []
+    with dev11.no_sleep():
+        for st in steps:
+            start = len(device.log)
+            device.cancels = set(start + int(c) for c in st.get('cancels') or [])
+            device.transients = [(start + int(i), int(c)) for i, c in st.get('transients') or []]
+            res0 = [device.res[dev11.REPO], device.res[dev11.DEV]]
+            iface.calls = 0
+            op = st['op']
+            tag, val = dev11.outcome_of(lambda: real_op(ipmi, op))
+            res.append((res0, val if tag == 'ok' else tag, device.log[start:]))
+    return res
+
+
+def step_dev(base, st, res0, nreq):
+    """the device a step starts from, as a single-case description (faults the step never reached dropped)"""
+    return dict(base, cancels=sorted(int(c) for c in st.get('cancels') or [] if int(c) < nreq),
+                transients=[[int(i), int(c)] for i, c in st.get('transients') or [] if int(i) < nreq], res0=list(res0))
+
+
+def _step_sigs(base, steps, k, r):
+    res0, out, log = r
+    return judge(step_dev(base, steps[k], res0, len(log)), steps[k]['op'], out, log)
+
+
+def _history_shows(base, steps, sig):
+    res = run_history(base, steps)
+    return any(x[0] == sig for x in _step_sigs(base, steps, len(steps) - 1, res[-1]))
+
+
+def shrink_history(base, steps, k, sig):
+    steps = list(steps[:k + 1])
+    i = 0
+    while i < len(steps) - 1:
+        cand = steps[:i] + steps[i + 1:]
+        if _history_shows(base, cand, sig):
+            steps = cand
+        else:
+            i += 1
+    # the earlier steps that are needed do not need their faults
+    for j in range(len(steps) - 1):
+        if steps[j].get('cancels') or steps[j].get('transients'):
+            cand = steps[:j] + [{'op': steps[j]['op']}] + steps[j + 1:]
+            if _history_shows(base, cand, sig):
+                steps = cand
+    return steps
+
+
+def history_case(ctx, drv, found, base, steps, variant, tag):
+    res = run_history(base, steps)
+    ctx.count('history:' + tag)
+    ctx.count('history-steps', len(steps))
+    for k, r in enumerate(res):
+        res0, out, log = r
+        op = steps[k]['op']
+        d = step_dev(base, steps[k], res0, len(log))
+        ctx.case(('history', json.dumps(base, sort_keys=True), json.dumps(steps[:k + 1])), nontrivial=k >= 1)
+        ctx.count('history-op:%s%s' % (API[(op[0], op[1])], '+fault' if d['cancels'] or d['transients'] else ''))
+        if k >= 1:
+            ctx.count('history-store-change' if steps[k - 1]['op'][1] != op[1] else 'history-same-store')
+        # the same operation on a fresh object / device in this state (judged and compared with the Lean model)
+        out_f, log_f = one_case(ctx, drv, found, d, op, variant)
+        if (out, log) != (out_f, log_f):
+            ctx.disagree('%s as operation %d of a history differs from the same operation on a fresh Ipmi object '
+                         '(the model has no state between calls)' % (API[(op[0], op[1])], k),
+                         {'base': base, 'steps': steps[:k + 1], 'step': k},
+                         (out_f[:200], _first_diff(show_trace(log_f), show_trace(log))), out[:200])
+        for sig, what, exp, obs in judge(d, op, out, log):
+            if any(x[0] == sig for x in judge(d, op, out_f, log_f)):
+                continue            # not a matter of history: one_case has reported the single case
+            small = shrink_history(base, steps, k, sig)
+            size = (100 + len(small), sum(len(h) for h in base['repo'] + base['dev']),
+                    sum(len(x.get('cancels') or []) + len(x.get('transients') or []) for x in small))
+            found.add(sig + ':after-earlier-operations',
+                      what + ' - on an Ipmi object that performed other operations before (the same operation on a fresh '
+                             'object against the same device is served correctly)',
+                      {'base': base, 'steps': small, 'step': len(small) - 1}, exp, obs, size)
+    return res
+
+
+def gen_history(rng):
+    base = gen_device(rng, rng.choice([1, 1, 2, 3, 5]), rng.choice([1, 1, 2, 4]))
+    if rng.random() < 0.7:
+        base['limit'] = rng.choice([5, 8, 12, 16, 20, 21, 255])
+    steps = []
+    store = rng.choice('rd')
+    for _ in range(rng.randrange(2, 6)):
+        if rng.random() < 0.75:
+            store = 'd' if store == 'r' else 'r'
+        recs = recs_of(base, store)
+        r = rng.random()
+        if r < 0.5:
+            op = ['get', store, rng.choice([0] + [rec_id(x) for x in recs] * 3), None]
+        else:
+            op = [rng.choice(['entries', 'list']), store]
+        st = {'op': op}
+        r = rng.random()
+        if r < 0.45:
+            st['cancels'] = sorted(set(rng.randrange(0, 14) for _ in range(rng.choice([1, 1, 2]))))
+        elif r < 0.65:
+            st['transients'] = [[rng.randrange(0, 14), rng.choice([0xC3, 0xCE])] for _ in range(rng.choice([1, 2]))]
+        steps.append(st)
+    return base, steps
+
+
 # ---- generators -------------------------------------------------------------------------------
 
 def gen_record(rng, rid, n):
@@ -545,6 +664,39 @@ def run(ctx):
             go(d, [rng.choice(['entries', 'list']), store], 'outside:id-0-not-first')
         else:
             go(d, [rng.choice(['entries', 'list']), store], 'outside:small-or-empty-store')
+    # 7. histories on ONE Ipmi object over both stores: store A read / listed, then store B with a cancellation /
+    #    a transient code before EVERY request index, then back to A; random sequences of 2..5 operations
+    hrng = ctx.rng('c11-history')
+    hcombos = [(30, 16), (26, 255), (64, 12)] if quick else [(30, 16), (26, 255), (64, 12), (5, 8), (133, 8), (257, 16), (65, 5)]
+    for n, limit in hcombos:
+        for first in 'rd':
+            second = 'd' if first == 'r' else 'r'
+            base = make_dev(repo=gen_store(hrng, 2, first_zero=False) if (n, limit) != (26, 255) else [gen_record(hrng, 7, n)],
+                            dev=[gen_record(hrng, 0x21, n), gen_record(hrng, 0x22, 9)], limit=limit,
+                            strict=hrng.random() < 0.5, res0=(hrng.choice([0, 0xFFFE, 7]), hrng.choice([0, 0xFFFF, 300])))
+            for kind1 in ('get', 'list'):
+                for kind2 in ('get', 'list'):
+                    op1 = ['get', first, 0, None] if kind1 == 'get' else [hrng.choice(['entries', 'list']), first]
+                    op2 = ['get', second, 0, None] if kind2 == 'get' else [hrng.choice(['entries', 'list']), second]
+                    res = history_case(ctx, drv, found, base, [{'op': op1}, {'op': op2}, {'op': op1}], variant, 'A-B-A:fault-free')
+                    T2, T1 = len(res[1][2]), len(res[2][2])
+                    for k in range(T2 + 1):
+                        history_case(ctx, drv, found, base, [{'op': op1}, {'op': op2, 'cancels': [k]}], variant,
+                                     'A-then-B:cancel-at-every-index')
+                        history_case(ctx, drv, found, base, [{'op': op1}, {'op': op2, 'transients': [[k, hrng.choice([0xC3, 0xCE])]]}],
+                                     variant, 'A-then-B:transient-at-every-index')
+                    for k in range(0, T1 + 1, 1 if not quick else 2):
+                        history_case(ctx, drv, found, base, [{'op': op1}, {'op': op2, 'cancels': [hrng.randrange(0, T2 + 1)]},
+                                                             {'op': op1, 'cancels': [k]}], variant, 'A-B-A:cancel-in-B-and-back-in-A')
+            if ctx.time_left() < 20:
+                ctx.notes.append('time budget reached in generator 7 (directed histories)')
+                break
+    for _ in range(150 if quick else 3000):
+        base, steps = gen_history(hrng)
+        history_case(ctx, drv, found, base, steps, variant, 'random')
+        if ctx.time_left() < 15:
+            ctx.notes.append('time budget reached in generator 7 (random histories)')
+            break
     found.flush(ctx)
 
 
@@ -583,6 +735,26 @@ def search(ctx):
 
 def replay(ctx, v):
     case = v['case']
+    if 'steps' in case:
+        base, steps = case['base'], case['steps']
+        print('device : %s' % twin(dict(base, cancels=[], transients=[])).cfg_tokens_initial[:500])
+        print('         (repo records, device-SDR records, limit, strict, -, -, reservation counters)')
+        print('history on ONE Ipmi object (%d operations; fault indices count from the first request of the step):' % len(steps))
+        hit = False
+        for k, r in enumerate(run_history(base, steps)):
+            res0, out, log = r
+            op = steps[k]['op']
+            print(' step %d : %s %s   cancel-before-request %s  transient %s' % (
+                k, API[(op[0], op[1])], ' '.join(str(x) for x in op[2:]), steps[k].get('cancels') or '-',
+                steps[k].get('transients') or '-'))
+            print('   code  : %s' % out[:300])
+            print('   trace : %s' % show_trace(log)[:700])
+            for sig, what, exp, obs in _step_sigs(base, steps, k, r):
+                hit = True
+                print('   violated: [%s] %s' % (sig, what))
+                print('     expected: %s' % str(exp)[:400])
+                print('     observed: %s' % str(obs)[:400])
+        return hit
     d, op = case['dev'], case['op']
     out, device = run_real(d, op)
     print('device : %s' % device.cfg_tokens_initial[:500])
